@@ -18,6 +18,9 @@ def nest(r, depth, fresh):
         return f'(let ([{fresh()} {r.randint(0, 3)}]) {b})'
     if k == 'call':
         return f'((fn [{fresh()}] {b}) {r.randint(0, 3)})'
+    if k in ('in-scope', 'in-group', 'in-groups') and r.random() < 0.25:
+        # the body itself moves the captured scope: the construct puts back what was there before it started
+        b = r.choice(['(set-scope top)', '(unset-scope)', '(do (set-scope top) CS)', f'(do (set-scope top) {b})'])
     if k == 'in-scope':
         return f'(in-scope "{r.choice(["top", "nosuchscope", "top"])}" {b})'
     if k == 'in-group':
@@ -73,10 +76,12 @@ class C17(framework.PropertyCheck):
         def fresh():
             cnt[0] += 1
             return f'w{cnt[0]}'
-        steps = [('loadvcd', 't0', self._vcd())]
+        steps = [('loadvcd', 't0', self._vcd()), ('eval', 'eorg', '(defmacro lit9 [] 5)'), ('eval', 'eorg', '(defmacro id9 [x9] x9)')]
         marks = []
         for k in range(r.randint(1, 6)):
             form = nest(r, r.randint(1, 5), fresh)
+            if r.random() < 0.12:
+                form = r.choice(['(lit9)', '(id9 3)', '(id9 INDEX)'])      # a macro whose expansion is a literal / its operand, as a top-level form
             neutral = form.startswith(('(reval ', '(find ', '(whenever ', '(timeframe '))
             if neutral:
                 marks.append(('pos', len(steps), form))
